@@ -56,6 +56,9 @@ class Contract:
         self.modifies_maps = list(kw.pop("modifies_maps", []))
         # names of opaque heap predicates (pyvc.spec.HeapPred) whose definition this contract's proof may unfold
         self.reveal = set(kw.pop("reveal", []))
+        # {callee key: {ghost parameter of the callee: clause expression over this function's parameters / ghosts}}: instantiates the
+        # callee's universally quantified ghost parameters at modular calls (default: the postcondition is assumed for all values)
+        self.ghost_args = dict(kw.pop("ghost_args", {}))
         if kw:
             raise TypeError("unknown contract options %r for %s" % (list(kw), key))
         self._clauses = {}
@@ -146,6 +149,11 @@ def forall_int(fn):
     if REPLAY_UNIVERSE is None:
         raise NotImplementedError("forall_int is a proof-only quantifier")
     return all(fn(k) for k in REPLAY_UNIVERSE)
+
+
+def items_of(m):
+    """The (key, value) pairs of a dict as a list, in the order the code iterates over them."""
+    return list(m.items())
 
 
 def enum_key(member):
